@@ -19,6 +19,8 @@ MCWUrl    == [w \in MCWriters |-> IF w = "w3" THEN "u2" ELSE "u1"]
 Step(actor, act, arg) == [actor |-> actor, act |-> act, arg |-> arg]
 Log(e) == hist' = IF Emit /\ Len(hist) < MaxHist THEN Append(hist, e) ELSE hist
 
+(* the schedule generator for repeated stores leaves crashes out (they end most random schedules before a second store) *)
+NoCrash == Emit /\ Config = "w2s2"
 MCInit == Init /\ hist = <<>>
 MCNext ==
   \/ \E w \in Writers :
@@ -27,7 +29,7 @@ MCNext ==
        \/ WClose(w) /\ Log(Step(w, "WClose", ""))
        \/ WRename(w) /\ Log(Step(w, "WRename", ""))
        \/ WReturn(w) /\ Log(Step(w, "WReturn", ""))
-       \/ WCrash(w) /\ Log(Step(w, "WCrash", ""))
+       \/ ~NoCrash /\ WCrash(w) /\ Log(Step(w, "WCrash", ""))
   \/ \E r \in Readers :
        \/ \E u \in URLs : RBegin(r, u) /\ Log(Step(r, "RBegin", u))
        \/ ROpen(r) /\ Log(Step(r, "ROpen", ""))
